@@ -364,5 +364,8 @@ CLAIM = {
              "no file is read.",
     "note": "Trusted: CPython ast, vsa symbolic folding (loops unrolled twice), numpy where/equality semantics. The text reader's own "
             "keying/densification is decided in C09. Not decided: floating-point equality of coordinates, duplicate handling beyond first match.",
-    "technique": "static analysis: symbolic folding with event log; provenance of index stores; sibling-loop agreement; order preservation",
+    "technique": "static analysis: symbolic folding with event log; C02.1 by case evaluation per dimension (Data._get_common_indices folded with the "
+                 "axis fixed to Time / Leadtime / Location and two generic inputs; each returned index array taken apart: entry i = "
+                 "np.where(own values == common[i])[0][0], own attribute, own input, common = sorted NaN-free intersection over all inputs and "
+                 "the user's list); provenance of index stores; order preservation; reference substitution for refactored functions",
 }
